@@ -1,6 +1,7 @@
 package props
 
 import (
+	"go/types"
 	"go/token"
 
 	"golang.org/x/tools/go/ssa"
@@ -193,4 +194,231 @@ func sameBase(a, b ssa.Value) bool {
 		}
 	}
 	return false
+}
+
+// tableWalk recognises `for _, f := range <local table of functions> { if err := f(args…); err != nil { return …err } }`
+// at the dynamic call `call`: the table is a local array / slice literal whose every element is a
+// function constant, the loop is the range loop over the whole table, and the only other way out of
+// the loop body is a failing return. Returns the entries in table order and the loop header.
+func tableWalk(call ssa.CallInstruction) ([]*ssa.Function, *ssa.BasicBlock, bool) {
+	cc := call.Common()
+	if cc.IsInvoke() || cc.StaticCallee() != nil {
+		return nil, nil, false
+	}
+	// the callee value is table[i] or table[i].field
+	field := -1
+	v := cc.Value
+	if f, ok := v.(*ssa.Field); ok {
+		field, v = f.Field, f.X
+	} else if u, ok := v.(*ssa.UnOp); ok && u.Op == token.MUL {
+		if fa, ok := u.X.(*ssa.FieldAddr); ok {
+			if ia, ok := fa.X.(*ssa.IndexAddr); ok {
+				return tableWalkOver(call, ia.X, ia.Index, fa.Field)
+			}
+			// the range variable is a local copy of the element: stage := table[i]; stage.run(d)
+			if cell, ok := fa.X.(*ssa.Alloc); ok && cell.Referrers() != nil {
+				var src ssa.Value
+				n := 0
+				for _, r := range *cell.Referrers() {
+					if st, ok := r.(*ssa.Store); ok && st.Addr == ssa.Value(cell) {
+						src = st.Val
+						n++
+					}
+				}
+				if n == 1 {
+					switch x := src.(type) {
+					case *ssa.Index:
+						base := x.X
+						if cp, ok := base.(*ssa.UnOp); ok && cp.Op == token.MUL {
+							base = cp.X
+						}
+						return tableWalkOver(call, base, x.Index, fa.Field)
+					case *ssa.UnOp:
+						if ia, ok := x.X.(*ssa.IndexAddr); ok && x.Op == token.MUL {
+							return tableWalkOver(call, ia.X, ia.Index, fa.Field)
+						}
+					}
+				}
+			}
+		}
+	}
+	switch x := v.(type) {
+	case *ssa.UnOp:
+		if ia, ok := x.X.(*ssa.IndexAddr); ok && x.Op == token.MUL {
+			return tableWalkOver(call, ia.X, ia.Index, field)
+		}
+	case *ssa.Index:
+		base := x.X
+		if cp, ok := base.(*ssa.UnOp); ok && cp.Op == token.MUL {
+			base = cp.X
+		}
+		return tableWalkOver(call, base, x.Index, field)
+	}
+	return nil, nil, false
+}
+
+// tableEntries: the function stored at each constant index (optionally in struct field `field` of
+// the element) of a table rooted at a local allocation or a package-level variable.
+func tableEntries(root ssa.Value, field int, user *ssa.Function) (map[int64]*ssa.Function, int64) {
+	var scan []*ssa.Function
+	roots := map[ssa.Value]bool{root: true}
+	n := int64(-1)
+	arrLen := func(t types.Type) int64 {
+		if p, ok := t.Underlying().(*types.Pointer); ok {
+			t = p.Elem()
+		}
+		if a, ok := t.Underlying().(*types.Array); ok {
+			return a.Len()
+		}
+		return -1
+	}
+	switch r := root.(type) {
+	case *ssa.Global:
+		if r.Pkg == nil {
+			return nil, -1
+		}
+		ini := r.Pkg.Func("init")
+		if ini == nil {
+			return nil, -1
+		}
+		scan = append(scan, ini)
+		n = arrLen(r.Type())
+		// literals are built in a temporary and copied over
+		for _, b := range ini.Blocks {
+			for _, ins := range b.Instrs {
+				if st, ok := ins.(*ssa.Store); ok && st.Addr == ssa.Value(r) {
+					if u, ok := st.Val.(*ssa.UnOp); ok && u.Op == token.MUL {
+						roots[u.X] = true
+						if n < 0 {
+							n = arrLen(u.X.Type())
+						}
+					}
+					if sl, ok := st.Val.(*ssa.Slice); ok { // slice-typed global: G = temp[:]
+						roots[sl.X] = true
+						n = arrLen(sl.X.Type())
+					}
+				}
+			}
+		}
+	case *ssa.Alloc:
+		scan = append(scan, user)
+		n = arrLen(r.Type())
+	default:
+		return nil, -1
+	}
+	out := map[int64]*ssa.Function{}
+	for _, f := range scan {
+		for _, b := range f.Blocks {
+			for _, ins := range b.Instrs {
+				st, ok := ins.(*ssa.Store)
+				if !ok {
+					continue
+				}
+				addr := st.Addr
+				if field >= 0 {
+					fa, ok := addr.(*ssa.FieldAddr)
+					if !ok || fa.Field != field {
+						continue
+					}
+					addr = fa.X
+				}
+				ia, ok := addr.(*ssa.IndexAddr)
+				if !ok || !roots[ia.X] {
+					continue
+				}
+				k, ok := ia.Index.(*ssa.Const)
+				if !ok || k.Value == nil {
+					continue
+				}
+				var fnv *ssa.Function
+				switch x := st.Val.(type) {
+				case *ssa.Function:
+					fnv = x
+				case *ssa.MakeClosure:
+					fnv, _ = x.Fn.(*ssa.Function)
+				}
+				if fnv == nil {
+					return nil, -1
+				}
+				out[k.Int64()] = fnv
+			}
+		}
+	}
+	return out, n
+}
+
+func tableWalkOver(call ssa.CallInstruction, base, index ssa.Value, field int) ([]*ssa.Function, *ssa.BasicBlock, bool) {
+	if sl, ok := base.(*ssa.Slice); ok {
+		base = sl.X
+	}
+	if u, ok := base.(*ssa.UnOp); ok && u.Op == token.MUL {
+		base = u.X // a package-level table is loaded first
+	}
+	ents, n := tableEntries(base, field, call.Parent())
+	if n <= 0 || int64(len(ents)) != n {
+		return nil, nil, false
+	}
+	entries := make([]*ssa.Function, n)
+	for i := int64(0); i < n; i++ {
+		if ents[i] == nil {
+			return nil, nil, false
+		}
+		entries[i] = ents[i]
+	}
+	inc, ok := index.(*ssa.BinOp)
+	if !ok || inc.Op != token.ADD || !isConstInt(inc.Y, 1) {
+		return nil, nil, false
+	}
+	phi, ok := inc.X.(*ssa.Phi)
+	if !ok {
+		return nil, nil, false
+	}
+	h := phi.Block()
+	whole := false
+	for i, ed := range phi.Edges {
+		if !h.Dominates(h.Preds[i]) && isConstInt(ed, -1) {
+			whole = true
+		}
+	}
+	cond, ok := ifCond(inc.Block()).(*ssa.BinOp)
+	if !whole || !ok || cond.Op != token.LSS || cond.X != ssa.Value(inc) {
+		return nil, nil, false
+	}
+	boundOK := isConstInt(cond.Y, n)
+	if lc, ok := cond.Y.(*ssa.Call); ok {
+		if bi, ok := lc.Call.Value.(*ssa.Builtin); ok && bi.Name() == "len" && len(lc.Call.Args) == 1 {
+			if sl, ok := lc.Call.Args[0].(*ssa.Slice); ok && sl.X == base && sl.Low == nil && sl.High == nil {
+				boundOK = true
+			}
+		}
+	}
+	if !boundOK {
+		return nil, nil, false
+	}
+	// the body may leave the loop only through a failing return: the call's error is tested and the
+	// non-nil side returns it
+	fn := call.Parent()
+	ei := errorResultIndex(fn)
+	cv, isVal := call.(ssa.Value)
+	if ei < 0 || !isVal {
+		return nil, nil, false
+	}
+	tested := false
+	if bo, ok := ifCond(call.Block()).(*ssa.BinOp); ok && (bo.X == cv || bo.Y == cv) && (isNilConst(bo.X) || isNilConst(bo.Y)) && len(call.Block().Succs) == 2 {
+		failSide := call.Block().Succs[0]
+		if bo.Op == token.EQL {
+			failSide = call.Block().Succs[1]
+		}
+		rets := returnsReachable(failSide, map[*ssa.BasicBlock]bool{h: true})
+		tested = len(rets) > 0
+		for _, r := range rets {
+			if !definitelyNonNilError(r, ei) {
+				tested = false
+			}
+		}
+	}
+	if !tested {
+		return nil, nil, false
+	}
+	return entries, h, true
 }
